@@ -199,14 +199,14 @@ func (r *Report) Finish(evidencePath string) int {
 		"distinct_nontrivial": len(nontrivial),
 		"rule": "obligations are enumerated from the type-checked SSA program of /repo's working tree: one per (rule, function, construct) instance; " +
 			"an obligation is non-trivial when its verdict needed a fact about the surrounding code (dominance, dataflow, call graph), i.e. it is not a constant-only comparison; distinct = distinct (rule, function, construct) keys",
-		"samples":        samples,
-		"rules":          rulesOut,
-		"floors":         r.Floors,
-		"not_decided":    r.NotDecided,
-		"notes":          r.Notes,
-		"anchors_missing": r.Missing,
-		"exhaustive":     true,
-		"checker_cmd":    fmt.Sprintf("bin/tabverif -prop %s -tier %s", r.Prop, r.Tier),
+		"samples":                samples,
+		"rules":                  rulesOut,
+		"floors":                 r.Floors,
+		"not_decided":            r.NotDecided,
+		"notes":                  r.Notes,
+		"anchors_missing":        r.Missing,
+		"exhaustive":             true,
+		"checker_cmd":            fmt.Sprintf("bin/tabverif -prop %s -tier %s", r.Prop, r.Tier),
 		"known_findings_matched": len(r.knownSeen),
 	}
 	if r.c != nil {
